@@ -118,6 +118,13 @@ CANARIES = [
     ('c08-limit-precedence-again', 'C08', 'mindsdb_sql/planner/plan_join.py', "if query_in.having is None and query_in.group_by is None and query_in.limit is not None:", "if query_in.having is None or query_in.group_by is None and query_in.limit is not None:", 'C08.limit.'),
     ('c08-outer-drops-having', 'C08', 'mindsdb_sql/planner/plan_join.py', "            query2.from_table = None\n            query2.using = None", "            query2.from_table = None\n            query2.having = None\n            query2.using = None", 'C08.outer.reapply'),
     ('c08-no-or-guard', 'C08', 'mindsdb_sql/planner/plan_join.py', "        if 'or' in self.query_context['binary_ops']:\n            # not use conditions\n            conditions = []", "        if False:\n            conditions = []", 'C08.filter.context.or'),
+    ('c14-target-as-arg', 'C14', 'mindsdb_sql/planner/plan_join.py', "                    if col_name.lower() == predict_target:\n                        # don't add predict target to parameters\n                        continue\n", "", 'C14.predictor.eq-target'),
+    ('c14-keep-consumed', 'C14', 'mindsdb_sql/planner/plan_join.py', "                    # exclude condition\n                    el._orig_node.args = [Constant(0), Constant(0)]\n\n        # params for model", "\n        # params for model", 'C14.predictor.eq-const'),
+    ('c14-params-case', 'C14', 'mindsdb_sql/planner/plan_join.py', "                    model_params[param.lower()] = value", "                    model_params[param] = value", 'C14.predictor.'),
+    ('c14-wrong-dataframe', 'C14', 'mindsdb_sql/planner/plan_join.py', "        data_step = self.step_stack[-1]\n        row_dict = None", "        data_step = self.step_stack[0]\n        row_dict = None", 'C14.predictor.'),
+    ('c14-attr-any-table', 'C14', 'mindsdb_sql/planner/plan_join.py', "        parts = tuple(map(str.lower, column.parts[:-1]))\n        if parts in self.tables_idx:\n            return self.tables_idx[parts]",
+     "        parts = tuple(map(str.lower, column.parts[:-1]))\n        if parts in self.tables_idx:\n            return self.tables_idx[parts]\n        for k in self.tables_idx:\n            return self.tables_idx[k]", 'C14.attr.unknown-table'),
+    ('c14-colmap-swapped', 'C14', 'mindsdb_sql/planner/plan_join.py', "                columns_map[arg1.parts[-1]] = arg2\n", "                columns_map[arg2.parts[-1]] = arg1\n", 'C14.colmap.model-left'),
 ]
 
 
